@@ -48,16 +48,16 @@ pub open spec fn fri_ok(c: &Config, lc: nat, nvf: nat) -> bool {
 }
 
 impl Config {
-//@repo crates/fri/src/config.rs fn Config::validate props=C11
+//@repo crates/fri/src/config.rs fn Config::validate props=C01,C02,C11
     pub fn validate(
         &self,
         log_n_cosets: Felt,
         n_verifier_friendly_commitment_layers: Felt,
     ) -> (r: Result<Felt, Error>)
         requires
-            1 <= log_n_cosets@ <= 16, // [C11:fri-validate-called-with-bounded-blowup]
+            1 <= log_n_cosets@ <= 16, // [C01,C02,C11:fri-validate-called-with-bounded-blowup]
         ensures
-            r.is_ok() <==> fri_ok(self, log_n_cosets@, n_verifier_friendly_commitment_layers@), // [C11:fri-config-ok-iff-oracle]
+            r.is_ok() <==> fri_ok(self, log_n_cosets@, n_verifier_friendly_commitment_layers@), // [C01,C02,C11:fri-config-ok-iff-oracle]
             r.is_ok() ==> r->Ok_0@ as int == steps_sum(self.fri_step_sizes@, self.n_layers@ as int) + self.log_last_layer_degree_bound@, // [C11:fri-returns-log-input-degree]
     {
         if self.n_layers < MIN_FRI_LAYERS.into() || self.n_layers > MAX_FRI_LAYERS.into() {
